@@ -68,7 +68,9 @@ def case_st(draw, scenario, steps):
         c["N"] = draw(st.integers(1, 4))
         c["k"] = draw(log10_floats(-1, 1.3))
         c["size"] = draw(fl(0.5, 3.0))  # in thermal widths sqrt(kT/k)
-        c["dtw"] = draw(fl(0.5, 1.7))  # dt * omega_max; velocity Verlet is stable below 2
+        # dt * omega_max (velocity Verlet is stable below 2); the second Hamiltonian scenario uses large steps so
+        # that rejected trajectories - and whatever they leave behind - are frequent
+        c["dtw"] = draw(fl(0.9, 1.5)) if scenario.endswith("HMC2") else draw(fl(0.5, 1.7))
         c["nsteps"] = draw(st.integers(3, 15))
         c["masses"] = [draw(fl(1, 100)) for _ in range(4)]
     elif kind == "dipole":
